@@ -407,6 +407,17 @@ def token_matches(given, tok, maybe_numeric=False):
             held = struct.unpack('>d', struct.pack('>Q', int(tok[1:])))[0]
             if isinstance(given, float):
                 return f64bits(given) == int(tok[1:]) or (math.isnan(given) and math.isnan(held))
+            if maybe_numeric and isinstance(given, str):
+                # the numeral's value, written as a double when the values of the attribute share a float code
+                try:
+                    if float(int(given)) == held:
+                        return True
+                except (ValueError, OverflowError):
+                    pass
+                try:
+                    return '.' in given and _num_equal(float(given), held)
+                except (ValueError, OverflowError):
+                    return False
             return sem_equal(given, held, maybe_numeric)
         if tok[0] == 'f':       # single precision
             held = struct.unpack('>f', struct.pack('>I', int(tok[1:])))[0]
